@@ -1206,7 +1206,10 @@ class AsyncBackgroundBatcher(Generic[A_contra, R_co]):
                 async for key, result in self.func(args):
                     fut = futs.pop(key)
                     if isinstance(result, Exception):
-                        fut.set_exception(result)
+                        try:
+                            fut.set_exception(result)
+                        except TypeError as e:  # e.g. StopIteration
+                            fut.set_exception(e)
                     else:
                         fut.set_result(result)
         except Exception as e:
